@@ -17,6 +17,7 @@ ASSUMPTIONS = [
     "the order of the returned lists is not specified by the manual and not compared",
     "adding a member twice may keep one or two entries (unspecified); whichever the op shows is taken into the model and must then stay consistent",
     "deleting a non-member may be ignored or refused with ValueError/KeyError/LookupError (unspecified); the bookkeeping must not change",
+    "solves are compared with the fresh op only on problems that are well posed by construction (every variable boxed on both sides, at most one equality constraint, no constant-only equality): solvers.lp documents the rank conditions and an unbounded or rank-deficient problem has no unique outcome",
     "status 'unknown' or the documented rank-deficiency ValueError of solvers.lp on only one side of a solve comparison is counted, not judged",
 ]
 STEPS = ["add", "del-member", "del-nonmember", "add-twice", "objective", "solve"]
@@ -84,12 +85,12 @@ def run(ctx):
         # boxes (one or two constraints per variable)
         for i, v in enumerate(vs):
             if rng.random() < 0.5:
-                put(v <= R, "v%d <= 10" % i, ["box"]); put(v >= -R, "v%d >= -10" % i, ["box"])
+                put(v <= R, "v%d <= 10" % i, ["box", "boxu%d" % i]); put(v >= -R, "v%d >= -10" % i, ["box", "boxl%d" % i])
             else:
                 I = matrix(0.0, (2 * len(v), len(v)))
                 for k in range(len(v)):
                     I[k, k] = 1.0; I[len(v) + k, k] = -1.0
-                put(I * v <= R, "[I;-I]*v%d <= 10" % i, ["box"])
+                put(I * v <= R, "[I;-I]*v%d <= 10" % i, ["box", "boxu%d" % i, "boxl%d" % i])
         ncons = rng.randint(4, 7)
         kinds = ["lin1", "lin2", "lin2", "idx2", "eq1", "eq2", "abs2", "max1", "const", "sum2", "lin3", "lin1"]
         for _ in range(ncons):
@@ -113,10 +114,10 @@ def run(ctx):
                 put(f >= val(f) - mg, "v%d[a] + 2*v%d[b] >= h" % (i, j), ["multi"])
             elif k == "eq1":
                 f = M.sum(v) if len(v) > 1 else 2 * v
-                put(f == val(f), "sum(v%d) == b" % i, ["eq"])
+                put(f == val(f), "sum(v%d) == b" % i, ["eq", "eqsig:sum%d" % i])
             elif k == "eq2":
                 f = rmat(rng, 1, len(v)) * v - w[0]
-                put(f == val(f), "a'v%d - v%d[0] == b" % (i, j), ["eq", "multi"])
+                put(f == val(f), "a'v%d - v%d[0] == b" % (i, j), ["eq", "multi", "eqsig:pair%d-%d" % (min(i, j), max(i, j))])
             elif k == "abs2":
                 f = abs(v) - M.sum(w)
                 put(f <= val(f) + mg, "abs(v%d) - sum(v%d) <= h" % (i, j), ["multi", "pwl"])
@@ -315,9 +316,32 @@ def run(ctx):
                         b = outcome(fresh)
                     except Exception as e:
                         b = ("fresh-constructor-exc", type(e).__name__)
-                    ctx.count("check.solve-vs-fresh")
+                    # judged only on problems that are well posed by construction (rank conditions of solvers.lp,
+                    # bounded feasible set): every variable of the model has both sides of its box among the
+                    # constraints, the equalities are pairwise different kinds, none is constant-only
+                    tagsof = lambda d: [tg for q_, _, tg in pool if q_ is d][0]
+                    alltags = [tagsof(d) for d in model.cons]
+                    have = set(t_ for tg in alltags for t_ in tg)
+                    mv = model.variables(as_function(model.obj))
+                    boxed = all(("boxu%d" % i in have and "boxl%d" % i in have) for i, v in enumerate(vs) if id(v) in mv)
+                    eqs = [tg for tg in alltags if "eq" in tg]
+                    sigs = [t_ for tg in eqs for t_ in tg if t_.startswith("eqsig:")]
+                    eqvars = set()
+                    for t_ in sigs:
+                        eqvars |= set(t_.split(":")[1].replace("sum", "").replace("pair", "").split("-"))
+                    posed = boxed and not any("const" in tg for tg in eqs) and len(sigs) == len(eqs) and len(set(sigs)) == len(sigs) \
+                        and len(sigs) <= 1
+                    if not posed:
+                        ctx.count("solve.not-well-posed-by-construction")
+                        if a[:2] != b[:2] or (a[0] == "status" and a[1] == "optimal" and abs(a[2] - b[2]) > 1e-5 * max(1.0, abs(b[2]))):
+                            ctx.count("solve.not-well-posed.differs")
+                        a = b = ("skipped",)
+                    else:
+                        ctx.count("check.solve-vs-fresh")
                     if a[0] == "status" and a[1] == "optimal":
                         ctx.count("solve.optimal")
+                    if a[0] == "skipped":
+                        continue
                     if a[0] == "status":
                         ctx.count("solve.status." + a[1].replace(" ", "-"))
                     else:
@@ -355,11 +379,15 @@ def run(ctx):
                 # name the mechanism of the two known-by-reading shapes (diagnostic only)
                 for f in c.failed[nf:]:
                     if f["key"] == "delconstraint:variables-differ-from-model":
-                        f["key"] = "delconstraint:variable-not-collected"
                         try:
                             want = model.variables(as_function(model.obj))
                             objv = as_function(model.obj).variables()
                             extra = [v for v in p.variables() if id(v) not in want]
+                            have = set(id(v) for v in p.variables())
+                            if any(i not in have for i in want):
+                                f["key"] = "delconstraint:variable-dropped-while-still-used"
+                                continue
+                            f["key"] = "delconstraint:variable-not-collected"
                             if extra and all(p._variables[v]["o"] and not any(w is v for w in objv) for v in extra):
                                 f["key"] = "delconstraint:stale-objective-flag-keeps-variable"
                         except Exception:
